@@ -260,7 +260,69 @@ def check(case):
     if not ok or sorted(got.items()) != sorted(model2.items()):
         return Fail('stale-or-wrong-after-update', f'n={n}: serialised, overwrote key {k0}, serialised again: got '
                     f'{sorted(got.items())[:5] if ok else got!r}, expected {sorted(model2.items())[:5]}')
+    # ... the value WRITER replaced on the same object between two serialisations (with_*_values), and a value changed in place
+    if vkind == 'uint' and n + 60 <= 1023:
+        hm.with_uint_values(40)
+        ok, c4 = call(hm.serialize)
+        ok2, got = call(lambda: c4.begin_parse().load_hashmap(n, value_deserializer=lambda s: s.load_uint(40))) if ok and c4 is not None else (False, c4)
+        if not ok2 or sorted(got.items()) != sorted(model2.items()):
+            return Fail('stale-or-wrong-after-update/value-writer-replaced', f'n={n}: serialised with 32-bit values, with_uint_values(40), serialised '
+                        f'again: {sorted(got.items())[:4] if ok2 else got!r}')
+        boxes = {k: [v] for k, v in model2.items()}
+        hm3 = HashMap(n, value_serializer=lambda src, dest: dest.store_uint(src[0], 32))
+        for k in boxes:
+            hm3.set(k, boxes[k])
+        ok, c5 = call(hm3.serialize)
+        if ok and c5 is not None:
+            kx = sorted(boxes)[len(boxes) // 2]
+            boxes[kx][0] = (boxes[kx][0] + 7) & 0xFFFFFFFF               # the caller's value object changes, the map holds the same object
+            exp5 = {k: b[0] for k, b in boxes.items()}
+            ok, c6 = call(hm3.serialize)
+            ok2, got = call(lambda: c6.begin_parse().load_hashmap(n, value_deserializer=des)) if ok and c6 is not None else (False, c6)
+            if not ok2 or sorted(got.items()) != sorted(exp5.items()):
+                return Fail('stale-or-wrong-after-update/value-changed-in-place', f'n={n}: key {kx}: {sorted(got.items())[:4] if ok2 else got!r}')
     return None
+
+
+def check_mirror(case):
+    """two halves of a fork that mirror each other - the same sub-keys on both sides, values that compare equal with == yet are
+    written differently (the same account with and without anycast: Address.__eq__ ignores anycast, store_address writes it)"""
+    from pytoniq_core.boc.hashmap.hashmap import HashMap
+    from pytoniq_core.boc.address import Address
+    n, sub = case['n'], case['sub']
+    msb = 1 << (n - 1)
+    hm = HashMap(n).with_address_values()
+    exp = {}
+    for j, k in enumerate(sub):
+        for side in (0, 1):
+            a = Address((case['wc'], bytes.fromhex(case['acc'])))
+            anyc = None
+            if (side == case['anycast_side']) ^ (j % 2 == 1 and case['alternate']):
+                anyc = (case['depth'], case['pfx'] % (1 << case['depth']))
+                a.set_anycast(*anyc)
+            key = (k % msb) | (msb if side else 0)
+            hm.set(key, a)
+            exp[key] = (case['wc'], case['acc'], anyc)
+    ok, cell = call(hm.serialize)
+    if not ok:
+        return Fail(f'mirror/serialize-raises/{type(cell).__name__}', f'{exc_sig(cell)}: {cell!r}')
+
+    def de(s):
+        a = s.load_address()
+        return (a.wc, a.hash_part.hex(), None if a.anycast is None else (a.anycast.depth, a.anycast.rewrite_pfx))
+    ok, got = call(lambda: cell.begin_parse().load_hashmap(n, value_deserializer=de))
+    if not ok or got != exp:
+        bad = [k for k in exp if not ok or got.get(k) != exp[k]][:3]
+        return Fail('mirror/equal-but-differently-written-values-mixed-up', f'n={n} keys {bad}: got {[got.get(k) for k in bad] if ok else got!r}, '
+                    f'expected {[exp[k] for k in bad]}')
+    return None
+
+
+def strat_mirror(tier):
+    return st.fixed_dictionaries({'n': st.sampled_from([1, 2, 3, 8, 16, 64, 256]), 'sub': st.lists(st.integers(0, 2 ** 64), min_size=1, max_size=3, unique=True),
+                                  'wc': st.sampled_from([0, -1, 5]), 'acc': st.binary(min_size=32, max_size=32).map(bytes.hex),
+                                  'anycast_side': st.integers(0, 1), 'alternate': st.booleans(), 'depth': st.integers(1, 30),
+                                  'pfx': st.integers(0, 2 ** 30)})
 
 
 def check_invalid(case):
@@ -287,6 +349,25 @@ def check_invalid(case):
             return None
         hm = hm2
         where += '/via-map_'
+    elif route == 'address':            # width 267: an Address object whose parts do not fit addr_std (int8 workchain, 256-bit account)
+        from pytoniq_core.boc.address import Address
+        wc = [128, 255, 256, -129, 2 ** 31, -2 ** 31][abs(bad) % 6]
+        acc = b'\x11' * 32
+        if abs(bad) % 7 == 0:
+            wc, acc = 0, b'\x22' * 31          # (an over-long account is not generated: such an object is no address at all)
+        n = 267
+        hm, des = _mk(n, 'uint')
+        hm.set(Address((0, b'\x11' * 32)), 1)
+        hm.set(Address((-1, b'\x11' * 32)), 2)
+        ok, r = call(hm.set, Address((wc, acc)), 12345)
+        if not ok:
+            return None
+        where = f'address-object/wc={wc},len={len(acc)}'
+        ok, cell = call(hm.serialize)
+        if not ok:
+            return None
+        ok, got = call(lambda: cell.begin_parse().load_hashmap(n, value_deserializer=des))
+        return Fail('invalid-key-accepted/address-object-outside-addr_std', f'{where} stored without error; map parses back as {got if ok else got!r}')
     else:                               # the public .map attribute
         hm.map[bad] = 12345
         where += '/via-map-attribute'
@@ -342,7 +423,7 @@ def st_invalid(draw):
     pairs = [[draw(st.integers(0, (1 << n) - 1)), draw(st.integers(0, 2 ** 32 - 1))] for _ in range(draw(st.integers(0, 5)))]
     bad = draw(st.one_of(st.integers(1 << n, (1 << n) + 5), st.integers(1 << n, 1 << (n + 3)), st.integers(-5, -1),
                          st.integers(-(1 << n), -1), st.integers(-(1 << (n + 1)), -(1 << n))))
-    return {'n': n, 'pairs': pairs, 'bad': bad, 'route': draw(st.sampled_from(['set', 'set', 'map_', 'map_', 'item'])), 'first': draw(st.booleans())}
+    return {'n': n, 'pairs': pairs, 'bad': bad, 'route': draw(st.sampled_from(['set', 'set', 'map_', 'map_', 'item', 'address'])), 'first': draw(st.booleans())}
 
 
 def _shares_prefix(case):
@@ -384,5 +465,8 @@ SUBCHECKS = [
     Sub('all-key-subsets-small-widths', check, enum=enum_subsets, classify=classify, nontrivial=nt, shards=(8, 32), exhaustive=True,
         note='every non-empty... and the empty key subset for widths 1..3 (quick) and 4 (thorough)'),
     Sub('random-maps', check, strategy=lambda tier: st_case(), classify=classify, nontrivial=nt, n=(1500, 40000), shards=(16, 32)),
+    Sub('mirrored-halves-with-equal-values', check_mirror, strategy=strat_mirror, n=(400, 10000), shards=(4, 16),
+        classify=lambda c: ['n=%d' % c['n']], nontrivial=lambda c: True,
+        note='both halves of the root fork hold the same sub-keys; values are the same account with / without anycast (== ignores anycast)'),
     Sub('invalid-keys', check_invalid, strategy=lambda tier: st_invalid(), classify=classify, nontrivial=nt, n=(1500, 20000), shards=(8, 16)),
 ]
